@@ -175,6 +175,8 @@ def gen(rng, i, tier):
             case = {"layout": lay, "pattern": pat}
             if rng.random() < 0.35:
                 case["from_pattern"] = rng.choice(pats)
+            elif lay["k"] >= 2 and rng.random() < 0.3:
+                case["reprioritised"] = rng.randrange(1, lay["k"])  # the mux is first wired with rotated input order
             _state["queue"].append(case)
     return _state["queue"].pop(0)
 
@@ -215,6 +217,34 @@ def run(ctx, case):
             elif a.get("phase") != c.get("phase"):
                 sysobj.set_comp_phases(c["name"], c["phase"] if c.get("phase") is not None else [])
         ctx.count("history", "pattern edited on an analysed system")
+    elif case.get("reprioritised"):
+        # the mux is first connected with its inputs in another (rotated) priority order; the system is analysed; the
+        # mux is deleted with its subtree and re-added with the real order (the only way to change priorities), the
+        # same subtree below it - node indices and edge set end up the same, only the declared input order differs
+        import copy
+
+        ns = loader.load()
+        k = case["reprioritised"]
+        spec_a = copy.deepcopy(spec)
+        ma = S.comp_map(spec_a)["MUX"]
+        ma["parents"] = ma["parents"][k:] + ma["parents"][:k]
+        if ma.get("via_rail"):
+            ma["via_rail"] = ma["via_rail"][k:] + ma["via_rail"][:k]
+        st, sysobj = H.try_build(spec_a)
+        if st != "ok":
+            raise RuntimeError("layout rejected by the public API: %s" % H.exc_sig(sysobj))
+        with H.quiet():
+            H.solve(sysobj)
+            H.call(sysobj.rail_rep)
+        sysobj.del_comp("MUX")
+        below = set(["MUX"])
+        for c in spec["comps"]:
+            if c["name"] == "MUX" or any(p in below for p in c["parents"]):
+                below.add(c["name"])
+                S.add_one(sysobj, spec, c, ns)
+                if c.get("phase") is not None:
+                    sysobj.set_comp_phases(c["name"], copy.deepcopy(c["phase"]))
+        ctx.count("history", "mux re-added with another input priority on an analysed system")
     else:
         st, sysobj = H.try_build(spec)
         if st != "ok":
